@@ -902,7 +902,21 @@ def execute(plan):
     def bump(k, n=1):
         counters[k] = counters.get(k, 0) + n
 
-    states = {c["id"]: ClientState(c, pool) for c in plan["clients"]}
+    states = {}
+    ctor_failure = None
+    for c in plan["clients"]:
+        try:
+            states[c["id"]] = ClientState(c, pool)
+        except Exception as e:  # noqa: BLE001 - the constructor route of a registration failed
+            ctor_failure = Violation(ID, "registration_failed",
+                                     f"ReceptorEstimator(...) with valid constructor arguments "
+                                     f"{c['ctor']} raised {type(e).__name__}: {str(e)[:120]}",
+                                     op={"m": "constructor"}, client=c["id"],
+                                     exc=type(e).__name__).as_dict()
+            break
+    if ctor_failure is not None:
+        return {"violation": ctor_failure, "digest": log.digest(), "steps": 0,
+                "counters": counters, "cov": [], "nontrivial": False}
     for cs0 in states.values():
         for op0 in cs0.muts:
             sym_apply(cs0.sym, op0, meta)
